@@ -265,3 +265,76 @@ func TestC17(t *testing.T) {
 	defer ev.Flush()
 	rapid.Check(t, c17prop(ev))
 }
+
+// TestC17Burst: several administrators disconnect-and-ban different users at the same instant,
+// then the server restarts: every requested ban must be enforced before and after the restart.
+func TestC17Burst(t *testing.T) {
+	ev := evid.New("C17", "TestC17Burst")
+	defer ev.Flush()
+	rapid.Check(t, func(rt *rapid.T) {
+		n := rapid.IntRange(2, 8).Draw(rt, "pairs")
+		opts := rapid.SliceOfN(rapid.IntRange(1, 2), n, n).Draw(rt, "options")
+		rounds := rapid.IntRange(1, 3).Draw(rt, "rounds")
+		inWorld(rt, hlsim.Options{Agreement: "a", Accounts: []hlsim.AccountSpec{acct("admin", "Admin", "adminpw", allAccess), acct("user", "User", "upw", hlref.AccessOf(hlref.PrivAnyName))}}, func(rt *rapid.T, w *hlsim.World) {
+			var banned []string
+			for round := 0; round < rounds; round++ {
+				var admins, victims []*hlsim.Conn
+				var addrs []string
+				for i := 0; i < n; i++ {
+					admins = append(admins, loginAs(rt, w, fmt.Sprintf("10.17.%d.%d:1", round, 100+i), "admin", "adminpw", fmt.Sprintf("admin%d", i)))
+				}
+				for i := 0; i < n; i++ {
+					addr := fmt.Sprintf("10.17.%d.%d", round, 1+i)
+					addrs = append(addrs, addr)
+					victims = append(victims, loginAs(rt, w, addr+":5", "user", "upw", fmt.Sprintf("victim%d", i)))
+				}
+				us, err := admins[0].UserList()
+				if err != nil {
+					rt.Fatalf("harness: %v", err)
+				}
+				idOf := map[string]int{}
+				for _, u := range us {
+					idOf[string(u.Name)] = u.ID
+				}
+				for i, a := range admins {
+					a.SendAsync(hlref.Tran{Type: hlref.TranDisconnectUser, ID: a.NewID(), Fields: []hlref.Field{fld(hlref.FUserID, hlref.BE16(idOf[fmt.Sprintf("victim%d", i)])), fld(hlref.FOptions, hlref.BE16(opts[i]))}}.Encode())
+				}
+				settle(3 * time.Second)
+				for i, v := range victims {
+					if !v.EOF() {
+						rt.Fatalf("round %d: victim %d still connected three seconds after %d administrators sent their disconnect requests at the same instant", round, i, n)
+					}
+				}
+				banned = append(banned, addrs...)
+				for _, a := range admins {
+					a.Close()
+				}
+				settle(time.Second)
+				check := func(when string) {
+					bf, err := verifhooks.NewBanFile(filepath.Join(w.Cfg, "Banlist.yaml"))
+					if err != nil {
+						rt.Fatalf("%s: the ban file does not load: %v", when, err)
+					}
+					for _, addr := range banned {
+						if is, _ := bf.IsBanned(addr); !is {
+							rt.Fatalf("%s: the ban of %s (requested at the same instant as %d others) is not in the ban file", when, addr, n-1)
+						}
+						c := w.Connect(addr + ":9")
+						if r := c.Login(hlsim.LoginOpts{Login: "user", Password: "upw", Name: []byte("back"), Icon: 1}); r != nil && r.Err == 0 {
+							rt.Fatalf("%s: %s was banned but can log in again", when, addr)
+						}
+						c.Close()
+					}
+					settle(2 * time.Second)
+				}
+				check(fmt.Sprintf("round %d, before the restart", round))
+				if err := w.Restart(); err != nil {
+					rt.Fatalf("restart: %v", err)
+				}
+				check(fmt.Sprintf("round %d, after the restart", round))
+			}
+		})
+		ev.Case(evid.Hash("c17burst", n, fmt.Sprint(opts), rounds), true, "burst", fmt.Sprintf("pairs:%d", n))
+		ev.Label("burst_rounds", rounds)
+	})
+}
